@@ -103,6 +103,8 @@ class Sym:
     def __getattr__(self, name):
         if name.startswith("__"):
             raise AttributeError(name)
+        if name in JOINED_ATTRS:
+            return JoinedSeq(f"{self._p}.{name}")
         return Sym(f"{self._p}.{name}")
 
     def __call__(self, *a, **k):
@@ -160,6 +162,19 @@ class Sym:
 
     def __or__(self, o):
         return Sym(f"({self._p}|{_p(o)})")
+
+
+JOINED_ATTRS = {"package"}      # tuple-of-str attributes that templates only ever use as sep.join(x)
+
+
+class JoinedSeq(Sym):
+    """A tuple of strings that is only consumed by `sep.join(...)`: iterating yields ONE hole standing for the joined text."""
+
+    def __iter__(self):
+        yield HoleStr(self._p + "|joined")
+
+    def __len__(self):
+        return 1
 
 
 def wrap_filter(name, f):
@@ -355,6 +370,7 @@ def has_data(node, text):
 def compile_macro(env, tree, macro_args, body, name="region", tname="<region>"):
     """Compile a list of Jinja body nodes as a stand-alone macro of a fresh template (imports of the source kept)."""
     imports = [n for n in tree.body if isinstance(n, (nodes.Import, nodes.FromImport))]
+    imports += [n for n in tree.body if isinstance(n, nodes.Macro) and n.name != name]      # sibling macros stay callable
     args = [nodes.Name(a, "param") for a in macro_args]
     macro = nodes.Macro(name, args, [], list(body), lineno=1)
     new_tree = nodes.Template(imports + [macro], lineno=1)
@@ -400,7 +416,55 @@ def find_branch(root, test_path):
     return None
 
 
-def render_nodes(env, tree, body, params, maxlen=2, fixed=None):
+def container_consistent(d):
+    """Schema invariant that follows from Python's container semantics alone: a mapping/sequence is truthy iff it is non-empty,
+    and its items()/values()/keys() views have its length."""
+    lens = {}
+    for k, v in d.items():
+        if k[0] == "len":
+            base = k[1]
+            for suf in (".items()", ".values()", ".keys()"):
+                if base.endswith(suf):
+                    base = base[:-len(suf)]
+            if base in lens and lens[base] != v:
+                return False
+            lens[base] = v
+    for k, v in d.items():
+        if k[0] == "bool" and k[1] in lens and bool(v) != (lens[k[1]] > 0):
+            return False
+    return True
+
+
+def render_nodes(env, tree, body, params, maxlen=2, fixed=None, prune=container_consistent):
     """Render a list of Jinja nodes as a region with the given parameter names bound to Sym proxies of the same name."""
     mac = compile_macro(env, tree, params, body)
-    return explore(lambda: str(mac(*[Sym(p) for p in params])), maxlen=maxlen, fixed=fixed)
+    return explore(lambda: str(mac(*[Sym(p) for p in params])), maxlen=maxlen, fixed=fixed, prune=prune)
+
+
+def split_output(out_node, predicate):
+    """Split an Output node's children at the first TemplateData child for which predicate(text) holds; returns
+    (children before, children from that child on, with the TemplateData itself cut at the matching position)."""
+    for i, ch in enumerate(out_node.nodes):
+        if isinstance(ch, nodes.TemplateData):
+            pos = predicate(ch.data)
+            if pos is not None and pos >= 0:
+                before = list(out_node.nodes[:i]) + [nodes.TemplateData(ch.data[:pos], lineno=ch.lineno)]
+                after = [nodes.TemplateData(ch.data[pos:], lineno=ch.lineno)] + list(out_node.nodes[i + 1:])
+                return before, after
+    return None, None
+
+
+def drop_macro_calls(children, module_name="shared_macros"):
+    """Remove `{{ shared_macros.xxx(...) }}` expression children (their effect is covered by their own contracts)."""
+    out = []
+    for ch in children:
+        if isinstance(ch, nodes.Call) and isinstance(ch.node, nodes.Getattr) and isinstance(ch.node.node, nodes.Name) \
+                and ch.node.node.name == module_name:
+            continue
+        if isinstance(ch, nodes.Filter):
+            inner = ch.node
+            if isinstance(inner, nodes.Call) and isinstance(inner.node, nodes.Getattr) and isinstance(inner.node.node, nodes.Name) \
+                    and inner.node.node.name == module_name:
+                continue
+        out.append(ch)
+    return out
